@@ -34,6 +34,35 @@ def subnormals_survive():
     return (x * one) != 0.0 and (float.fromhex('0x1p-1022') * 0.5 * one) != 0.0
 
 
+_LOG_STATE = {}
+
+
+def set_debug_logging(on):
+    import logging
+    root = logging.getLogger()
+    if not _LOG_STATE:
+        _LOG_STATE['null'] = logging.NullHandler()
+        _LOG_STATE['handlers'] = None
+    lg = logging.getLogger('enspara')
+    if on:
+        if _LOG_STATE['handlers'] is None:
+            _LOG_STATE['handlers'] = list(root.handlers)
+            _LOG_STATE['root_level'] = root.level
+        for h in list(root.handlers):
+            root.removeHandler(h)
+        root.addHandler(_LOG_STATE['null'])
+        logging.disable(logging.NOTSET)
+        lg.setLevel(logging.DEBUG)
+    else:
+        if _LOG_STATE['handlers'] is not None:
+            root.removeHandler(_LOG_STATE['null'])
+            for h in _LOG_STATE['handlers']:
+                root.addHandler(h)
+            _LOG_STATE['handlers'] = None
+        lg.setLevel(logging.NOTSET)
+        logging.disable(logging.INFO)
+
+
 def main():
     fp_ok_at_start = subnormals_survive()
     spec = json.load(open(sys.argv[1]))
@@ -69,6 +98,12 @@ def main():
             break
         rng = rng_for(spec['seed'], prop, spec['kind'], idx)
         ctx.begin_case(idx)
+        # process-level state the library may consult: every seventh case
+        # runs with the library's loggers at DEBUG (records are created and
+        # dropped by a null handler), the others with logging switched off
+        set_debug_logging(idx % 7 == 3)
+        if idx % 7 == 3:
+            ctx.counters['cases_at_debug_log_level'] += 1
         # per-case watchdog (a C-level thread of faulthandler, so it fires
         # even when the interpreter is stuck in native code or in a
         # deadlocked allocator after heap corruption): the process exits,
